@@ -34,6 +34,7 @@ GENERIC = {
     "n5": ["Épsilon", "épsilon", "ÉPSILON"],
     "nz": ["Zeta", "ZETA"],
     "ny": ["Ypsilon", "YPSILON"],
+    "nx": ["Xi", "XI"],
 }
 NAMESPACE = {
     "n1": ["root/cimv2", "ROOT/CIMV2", "Root/CimV2"],
@@ -264,6 +265,17 @@ def project(o):
         return {"k": "L", "nm": [], "at": [],
                 "ch": [[_entry(dict(NONAME), project(x)) for x in o]]}
     return scalar_node(o)
+
+
+def safe_project(o):
+    """projection that never raises: an object whose public attributes cannot
+    be read becomes a node of an unclassifiable kind (rejected by TLC)."""
+    try:
+        return project(o)
+    except Exception as exc:  # noqa
+        return {"k": "UNCLASSIFIED:%s:%s" % (type(exc).__name__,
+                                             str(exc)[:120]),
+                "nm": [], "at": [], "ch": []}
 
 
 # ---------------------------------------------------------------------------
@@ -548,23 +560,37 @@ def ctor_stable(o):
         return False
 
 
+def _copy_head(o, base, m):
+    """copy o by method m; the first part of a copy event."""
+    e = {"ev": "copy", "m": m, "k": base["k"], "o": base, "muts": []}
+    try:
+        c = do_copy(m, o)
+    except Exception as exc:  # noqa: copying must not raise
+        e.update({"c": base, "ceq": "UNCLASSIFIED:%s raised %s: %s" % (
+            m, type(exc).__name__, str(exc)[:120]), "ceqr": "F", "cne": "T",
+            "h": "F"})
+        return e, None
+    e.update({"c": safe_project(c),
+              "ceq": ob(lambda: c == o), "ceqr": ob(lambda: o == c),
+              "cne": ob(lambda: c != o), "h": ob(lambda: hash(c) == hash(o))})
+    if safe_project(o) != base:
+        e["ceq"] = "UNCLASSIFIED:copying changed the original"
+    return e, c
+
+
 def copy_event(build, m, muts=()):
     """build() -> fresh original.  muts: list of (steps, access, label, fn);
     each one is applied to a fresh (original, copy) pair."""
     o = build()
     base = project(o)
-    c = do_copy(m, o)
-    e = {"ev": "copy", "m": m, "k": base["k"], "o": base, "c": project(c),
-         "ceq": ob(lambda: c == o), "ceqr": ob(lambda: o == c),
-         "cne": ob(lambda: c != o), "h": ob(lambda: hash(c) == hash(o)),
-         "muts": []}
-    if project(o) != base:
-        e["ceq"] = "UNCLASSIFIED:copying changed the original"
+    e, c = _copy_head(o, base, m)
+    if c is None:
+        return e
     for steps, access, label, fn in muts:
         o2 = build()
-        c2 = do_copy(m, o2)
-        before = project(c2)
         try:
+            c2 = do_copy(m, o2)
+            before = safe_project(c2)
             fn(resolve(c2, access))
         except Exception as exc:  # noqa: the mutation itself is not possible
             e["muts"].append({"steps": list(steps), "same": "T",
@@ -573,8 +599,8 @@ def copy_event(build, m, muts=()):
             continue
         e["muts"].append({
             "steps": list(steps), "what": label,
-            "same": "T" if project(o2) == base else "F",
-            "moved": "T" if project(c2) != before else "F"})
+            "same": "T" if safe_project(o2) == base else "F",
+            "moved": "T" if safe_project(c2) != before else "F"})
     return e
 
 
@@ -789,7 +815,10 @@ def cell_mutations(cell, slot):
                          lambda x: setattr(x, "value", None)))
         for sname, attr in DICT_SLOTS.get(cls, []):
             def rebind(x, sname=sname, attr=attr):
-                key = "Zeta"
+                # "Xi" is never a keybinding name: assigning properties must
+                # not trigger the (deprecated) propagation of key property
+                # values into a path that a shallow copy shares
+                key = "Xi" if sname == "props" else "Zeta"
                 setattr(x, attr, [(key, _new_child(sname, key))])
             muts.append(("set:" + attr, "set", rebind))
             muts.append(("drop:" + attr, "drop:" + sname,
@@ -932,32 +961,33 @@ def behaviour_event(build, m, muts, rng):
     every mutation."""
     o = build()
     base = project(o)
-    c = do_copy(m, o)
-    e = {"ev": "copy", "m": m, "k": base["k"], "o": base, "c": project(c),
-         "ceq": ob(lambda: c == o), "ceqr": ob(lambda: o == c),
-         "cne": ob(lambda: c != o), "h": ob(lambda: hash(c) == hash(o)),
-         "muts": []}
+    e, c = _copy_head(o, base, m)
+    if c is None:
+        return e
+    prev = base
     for mu in muts:
         steps = list(mu["steps"])
         try:
             cell, slot = follow(c, steps)
-        except (LookupError, StopIteration, AttributeError, TypeError):
+        except Exception:  # noqa: no such cell in this object
             break
         want = "set" if mu["v"] == "set" else "drop:" + mu["key"]
         cands = [x for x in cell_mutations(cell, slot) if x[1] == want]
         if not cands:
             break
         label, _variant, fn = cands[rng.randrange(len(cands))]
-        before = project(c)
+        before = safe_project(c)
         try:
             fn(cell)
         except Exception as exc:  # noqa
             e["muts"].append({"steps": steps, "same": "T", "what": label,
                               "moved": "X:%s" % type(exc).__name__})
             break
+        now = safe_project(o)      # effect of THIS mutation on the original
         e["muts"].append({"steps": steps, "what": label,
-                          "same": "T" if project(o) == base else "F",
-                          "moved": "T" if project(c) != before else "F"})
+                          "same": "T" if now == prev else "F",
+                          "moved": "T" if safe_project(c) != before else "F"})
+        prev = now
     return e
 
 
